@@ -1,4 +1,4 @@
-import Eru.Cluster.ProofsNode
+import Eru.Cluster.ProofsSerial
 /-
 C10 — Node usage always equals the sum of the workloads recorded on the node.
 
@@ -81,6 +81,65 @@ every admissible history -/
 theorem usage_eq_sum_after_history (h : List (Op R × Option Addr)) (s : State R) (hs : Inv s)
     (hok : HistOK s h) : ∀ n, (runHistory h s).usage n = load (runHistory h s) n :=
   (consistent_run_partial h s hs hok).2.2
+
+/-! ### concurrent operations
+
+Which lock covers the usage-changing section (checked on the real code on every run: the harness
+replays the lock / unlock events and reports `C10:usage-write-without-pod-lock` for any
+`pluginSetUsage:*`, `pluginAlloc`, `pluginRealloc`, `pluginRollback*` call made while the pod lock of
+the node's pod is not held):
+
+| operation | usage-changing section | lock held |
+|---|---|---|
+| remove, dissociate | the per-node loop (decrement, remove, re-increment) | pod lock of the node's pod |
+| realloc | the whole transaction | pod lock |
+| create | condition step (all allocations); each give-back of the rollback | pod locks of all candidate nodes; pod lock per node |
+| set-node, remove-node | the whole transaction (capacity / record only) | pod lock |
+| replace | none (the new workload inherits the resources) | workload lock only |
+| add-node | creates a record nobody else can address yet | none |
+
+Under that discipline an operation's usage-changing section is an atomic block with respect to
+every other such section of the same pod. Create's deploy phase runs outside the lock but writes no
+usage and only adds records with fresh ids; it is treated as part of create's block. -/
+
+/-- an operation with a fault plan, as an atomic block -/
+def block (p : Op R × Option Addr) : State R → State R := fun s => after p.1 p.2 s
+
+/-- a block whose side conditions hold in every state and whose fault is not excluded -/
+def BlockOK (p : Op R × Option Addr) : Prop := (∀ s, ArgsOK s p.1) ∧ ¬ Excluded p.1 p.2
+
+/-- **C10 under interleaving**: two clients issue operation sequences `xs`, `ys`; whatever way the
+blocks interleave (each client's own order kept), the invariant survives. -/
+theorem consistent_concurrent_partial (xs ys : List (Op R × Option Addr))
+    (hx : ∀ p ∈ xs, BlockOK p) (hy : ∀ p ∈ ys, BlockOK p)
+    (sched : List (State R → State R)) (h : sched ∈ merges (xs.map block) (ys.map block))
+    (s : State R) (hs : Inv s) : Inv (runBlocks sched s) := by
+  apply pres_of_interleaving Inv (xs.map block) (ys.map block) _ _ sched h s hs
+  · intro f hf s' hs'
+    obtain ⟨p, hp, rfl⟩ := List.mem_map.mp hf
+    exact consistent_step_partial p.1 p.2 s' hs' ((hx p hp).1 s') (hx p hp).2
+  · intro f hf s' hs'
+    obtain ⟨p, hp, rfl⟩ := List.mem_map.mp hf
+    exact consistent_step_partial p.1 p.2 s' hs' ((hy p hp).1 s') (hy p hp).2
+
+/-- two operations started together end in one of the two sequential orders (what the harness'
+concurrent stream compares the real post-state with) -/
+theorem two_ops_serialise (p q : Op R × Option Addr) (sched : List (State R → State R))
+    (h : sched ∈ merges [block p] [block q]) (s : State R) :
+    runBlocks sched s = block q (block p s) ∨ runBlocks sched s = block p (block q s) :=
+  podlock_serialises (block p) (block q) sched h s
+
+/-! ### the capacity clause
+
+"No allocation ever raises a node's core or memory usage above its capacity" is a property of the
+resource layer's answers (the plan and the per-instance resources are arguments of this model):
+it is carried by C04 / C07 / C08 and, at the cluster level, by the oracle, which evaluates
+`usage ≤ capacity` (memory, every core, every NUMA node) on every implementation snapshot
+(`C10:over-capacity:<op>:<fault>`). Nothing about capacity is proved in this file.
+
+`ArgsOK` for add-node (`NoWlOn`: no record under the new node's name) is an argument hypothesis; it
+holds along histories of the real system as long as workloads are only recorded on nodes the
+store knows (C22). -/
 
 /-- one node, one workload of size 5 -/
 def witness : State Int :=
